@@ -66,8 +66,10 @@ func (s *checkpoint) Save() {
 	defer s.saveLock.Unlock()
 
 	checkpointDump := map[uint16]*models.CheckpointDocument{}
+	offsetsDump := map[uint16]*models.Offset{}
 
 	offsets.Range(func(vbID uint16, offset *models.Offset) bool {
+		offsetsDump[vbID] = offset
 		checkpointDump[vbID] = &models.CheckpointDocument{
 			Checkpoint: &models.CheckpointDocumentCheckpoint{
 				VbUUID: uint64(offset.VbUUID),
@@ -106,7 +108,16 @@ func (s *checkpoint) Save() {
 
 	if err == nil {
 		logger.Log.Trace("saved checkpoint")
-		s.stream.UnmarkDirtyOffsets()
+
+		saved := map[uint16]*models.Offset{}
+
+		for vbID, dirt := range dirtyOffsetsDump {
+			if offset, ok := offsetsDump[vbID]; ok && dirt {
+				saved[vbID] = offset
+			}
+		}
+
+		s.stream.UnmarkDirtyOffsets(saved)
 	} else {
 		logger.Log.Error("error while saving checkpoint document: %v", err)
 	}
